@@ -343,6 +343,17 @@ def law_cases(draw):
     option = {"kind": "none"}
     if lib == "OT" and family != "Dirac" and not generic:
         option = draw(ot_option(family, q))
+        if family in ("Normal", "Uniform", "Exponential") and draw(st.integers(0, 2**16)) % 6 == 0:
+            # a one-sided truncation at exactly 0.0 of a law whose mass 0 splits: the location is moved so that it does
+            share = draw(st.sampled_from([0.1, 0.25, 0.5, 0.75, 0.9]))
+            if family == "Normal":
+                q = dict(q, mu=_r(q["sigma"] * draw(st.sampled_from([-1.0, -0.5, 0.0, 0.5, 1.0])), 6))
+            elif family == "Uniform":
+                q = dict(q, a=_r(-share * q["w"], 9))
+            else:
+                q = dict(q, loc=_r(-share / q["rate"], 9))
+            side = draw(st.sampled_from(["lower", "upper"]))
+            option = {"kind": "truncate", "lower": 0.0 if side == "lower" else None, "upper": 0.0 if side == "upper" else None}
     return {
         "family": family, "q": q, "lib": lib, "generic": generic, "option": option,
         "probs": draw(st.lists(PROBS, min_size=2, max_size=5)), "n": draw(st.integers(50, 400)), "rng": draw(st.integers(0, 2**31 - 2)),
